@@ -44,13 +44,56 @@ def sc(x):
     return int(v)
 
 
+def scs(x, scale=S):
+    """scale a value that comes from the CODE UNDER TEST: never raises (changed code may return anything)"""
+    try:
+        v = x * scale
+        return int(v) if v == int(v) else x
+    except Exception:  # noqa: BLE001
+        return repr(x)
+
+
+def _mk_ens(left, right):
+    """ens_set handed to propagate: mutable containers on purpose, so that any in-place change shows"""
+    return {"interfaces": [left, (left + right) / 2, right], "ens_name": "001",
+            "tis_set": {"maxlength": 7, "allowmaxlength": False, "nested": [1, 2, {"k": 0.0}]}}
+
+
+def _purity(obs, ens, ens_before, path, start_order):
+    """(b) inputs unchanged / no aliasing between returned frames, the start point and each other"""
+    import copy  # noqa: F401
+    obs["ens_changed"] = None if ens == ens_before else repr(ens)
+    ids = [id(pp.order) for pp in path.phasepoints]
+    obs["order_alias"] = len(set(ids)) != len(ids) or (start_order is not None and id(start_order) in ids)
+
+
+def _snap_path(path):
+    return [(tuple(pp.config), [float(x) for x in pp.order], bool(pp.vel_rev)) for pp in path.phasepoints]
+
+
+_LAST = {}
+
+
+def guarded(ctx, eng, case, fn, *a):
+    """(g) a predicate must never crash the harness on unexpected output of changed code: that output is the finding"""
+    try:
+        return fn(*a)
+    except Exception:  # noqa: BLE001
+        ctx.fail(f"C12:{eng}:unexpected-output", "the property predicate could not be evaluated on the engine's output: "
+                 + traceback.format_exc()[-600:], {"case": case})
+        return 1
+
+
 # ----------------------------------------------------------------------------- file formats (own writers/parsers)
-def lmp_frame(step, d, L, vx, lo=0.0, trailing_id=True):
+def lmp_frame(step, d, L, vx, lo=0.0, trailing_id=True, shuffled=False):
     s = f"ITEM: TIMESTEP\n{step}\nITEM: NUMBER OF ATOMS\n2\nITEM: BOX BOUNDS pp pp pp\n"
     for _ in range(3):
         s += f"{lo!r} {lo + L!r}\n"
     s += "ITEM: ATOMS id type x y z vx vy vz" + (" id\n" if trailing_id else "\n")
-    for i, (x, v) in enumerate(((lo, 0.0), (lo + d, vx)), start=1):
+    rows = list(enumerate(((lo, 0.0), (lo + d, vx)), start=1))
+    if shuffled:
+        rows.reverse()           # LAMMPS does not write atoms in id order
+    for i, (x, v) in rows:
         s += f"{i} 1 {x!r} {lo!r} {lo!r} {v!r} 0.0 0.0" + (f" {i}\n" if trailing_id else "\n")
     return s
 
@@ -227,8 +270,12 @@ def run_ext(case):
             pre = _run_ext_in(case["prelude"], work)
             if "harness_error" in pre:
                 return pre
+            first_path = _LAST.get("path")
+            first_snap = _snap_path(first_path)
         obs = _run_ext_in(case, work)
         if case.get("prelude"):
+            # (b) frames returned earlier must not change when the engine is used again (no aliasing of engine buffers)
+            obs["earlier_path_changed"] = _snap_path(first_path) != first_snap
             obs["prelude_obs"] = {k: pre.get(k) for k in ("raised", "success", "status", "path", "proc")}
         return obs
     finally:
@@ -249,7 +296,8 @@ def _run_ext_in(case, work):
         if eng_name == "lammps":
             from infretis.classes.engines import lammps as mod
             eng = _lammps_engine(sub)
-            texts = [lmp_frame(k * sub, d, L, vx, lo) for k, (d, L, vx) in enumerate(frames)]
+            texts = [lmp_frame(k * sub, d, L, vx, lo, shuffled=bool(case.get("shuffled")) and k % 2 == 1)
+                     for k, (d, L, vx) in enumerate(frames)]
             files = {"traj": "".join(texts)}
             cuts = {"traj": list(itertools.accumulate([0] + [len(t) for t in texts]))}
             pre = {"log.lammps": "Step KinEng PotEng TotEng Temp\n" + "".join(
@@ -257,7 +305,7 @@ def _run_ext_in(case, work):
             init = os.path.join(work, "start.lammpstrj")
             d0, L0, v0 = case.get("start", frames[0] if frames else (1.0, 16.0, 0.0))
             with open(init, "w") as fh:
-                fh.write(lmp_frame(0, d0, L0, v0, lo, trailing_id=False))
+                fh.write(lmp_frame(0, d0, L0, v0, lo, trailing_id=False, shuffled=bool(case.get("shuffled"))))
         else:
             from infretis.classes.engines import cp2k as mod
             eng = _cp2k_engine(sub)
@@ -295,7 +343,10 @@ def _run_ext_in(case, work):
         system.vel_rev = bool(case.get("vel_rev0", False))
         system.order = [d0, v0]
         path = Path(maxlen=case["maxlen"])
-        ens = {"interfaces": (case["left"], (case["left"] + case["right"]) / 2, case["right"]), "ens_name": "001"}
+        import copy
+        ens = _mk_ens(case["left"], case["right"])
+        ens_before = copy.deepcopy(ens)
+        start_order = system.order
         old_sleep = mod.sleep
         mod.sleep = c.sleep
         ctl.FakeCtl.active = c
@@ -311,6 +362,8 @@ def _run_ext_in(case, work):
         finally:
             ctl.FakeCtl.active = None
             mod.sleep = old_sleep
+        _purity(obs, ens, ens_before, path, start_order)
+        _LAST["path"] = path
         obs["proc"] = c.finish()
         obs["ticks"] = c.t
         obs["realised"] = [r if r is not None else [0, 0, 0, 1] for r in c.realised]
@@ -505,7 +558,10 @@ def run_inproc(case):
             system.vel_rev = vel_rev0
             system.order = [case["d0"], case["v0"]]
             path = Path(maxlen=maxlen)
-            ens = {"interfaces": (left, (left + right) / 2, right), "ens_name": "001"}
+            import copy
+            ens = _mk_ens(left, right)
+            ens_before = copy.deepcopy(ens)
+            start_order = system.order
             o = {"raised": "ok"}
             try:
                 ok, status = eng.propagate(path, ens, system, reverse=rev)
@@ -528,6 +584,7 @@ def run_inproc(case):
                         rec.append({"d": d, "L": LL, "vx": vx, "order0": pbc(d, LL)})
                     else:
                         rec.append(None)
+            _purity(o, ens, ens_before, path, start_order)
             o["path"] = ents
             o["recomputed"] = rec
             o["nframes_file"] = len(read_frames(fn)) if fn and os.path.exists(fn) else 0
@@ -548,7 +605,7 @@ def run_inproc(case):
 
 
 # ----------------------------------------------------------------------------- sequences on one engine object
-def _new_inproc_engine(name, sub, L, k):
+def _new_inproc_engine(name, sub, L, k, langevin=False):
     """a FRESH engine object with forces that depend on the configuration (ASE: spring k; TurtleMD: Lennard-Jones)"""
     import importlib.util  # noqa: F401
     import contextlib
@@ -561,8 +618,12 @@ def _new_inproc_engine(name, sub, L, k):
         if not os.path.exists(mod):
             with open(mod, "w") as fh:
                 fh.write(ASE_CALC)
-        eng = ASEEngine(_ase_dt(), 300, sub, root, "velocityverlet",
-                        {"module": mod, "class": "Spring", "k": k, "x0": 2.0}, exe_path=root)
+        if langevin:
+            eng = ASEEngine(_ase_dt(), 300, sub, root, "langevin", {"module": mod, "class": "Spring", "k": k, "x0": 2.0},
+                            langevin_friction=0.01, langevin_fixcm=False, exe_path=root)
+        else:
+            eng = ASEEngine(_ase_dt(), 300, sub, root, "velocityverlet",
+                            {"module": mod, "class": "Spring", "k": k, "x0": 2.0}, exe_path=root)
     else:
         from infretis.classes.engines.turtlemdengine import TurtleMDEngine
         from turtlemd.integrators import VelocityVerlet
@@ -579,8 +640,9 @@ def _new_inproc_engine(name, sub, L, k):
                            "settings": {"parameters": {"1": {"sigma": 1.0, "epsilon": k, "rcut": 3.0}}}},
                 particles={"mass": [1.0, 1.0], "name": ["H", "H"], "pos": [[0, 0, 0], [1.0, 0, 0]]},
                 box={"periodic": [True, True, True], "low": [0, 0, 0], "high": [L, L, L]})
-        eng.integrator = SeedlessVV
-        eng.integrator_settings = {}
+        if not langevin:
+            eng.integrator = SeedlessVV
+            eng.integrator_settings = {}
         eng.rgen = np.random.default_rng(0)
     eng.order_function = _probe_order()
     return eng
@@ -601,7 +663,7 @@ def run_seq(case):
 
         def start_file(d0, v0, tag):
             if name == "turtle":
-                fn = os.path.join(work, f"start_{tag}.xyz")
+                fn = os.path.join(work, "start.xyz")        # the same file NAME is rewritten for every new start point
                 with open(fn, "w") as fh:
                     fh.write(f"2\n# Box: {L:9.4f} {L:9.4f} {L:9.4f}\nH 0.0 0.0 0.0 0.0 0.0 0.0\n"
                              f"H {d0!r} 0.0 0.0 {v0!r} 0.0 0.0\n")
@@ -616,25 +678,36 @@ def run_seq(case):
             vel = np.zeros((2, 3))
             vel[1, 0] = v0
             at.set_velocities(vel)
-            fn = os.path.join(work, f"start_{tag}.traj")
+            fn = os.path.join(work, "start.traj")
             at.write(fn)
             return fn
 
-        def prop(eng, exe, cfg, vel_rev0, rev, maxlen):
+        lang = bool(case.get("langevin"))
+        snaps = []
+
+        def prop(eng, exe, cfg, vel_rev0, rev, maxlen, seed=0, keep=False):
+            import numpy as np
             os.makedirs(exe, exist_ok=True)
             eng.exe_dir = exe
+            if lang:
+                # the same random stream → the same path: TurtleMD seeds its integrator from engine.rgen,
+                # ASE's Langevin draws from the global numpy state
+                eng.rgen = np.random.default_rng(seed)
+                np.random.seed(seed)
             system = System()
             system.config = cfg
             system.vel_rev = vel_rev0
             path = Path(maxlen=maxlen)
             ens = {"interfaces": (-1e9, 0.0, 1e9), "ens_name": "001"}
             eng.propagate(path, ens, system, reverse=rev)
+            if keep:
+                snaps.append((path, _snap_path(path)))
             return {"order": [[float(x) for x in pp.order] for pp in path.phasepoints],
                     "ekin": [None if pp.ekin is None else float(pp.ekin) for pp in path.phasepoints],
                     "vpot": [None if pp.vpot is None else float(pp.vpot) for pp in path.phasepoints],
                     "config": [(pp.config[0], pp.config[1]) for pp in path.phasepoints], "vel_rev": rev}
 
-        long_lived = _new_inproc_engine(name, case["sub"], L, case["k"])
+        long_lived = _new_inproc_engine(name, case["sub"], L, case["k"], lang)
         done = []
         for i, st in enumerate(case["steps"]):
             if st.get("from") is not None:
@@ -644,12 +717,12 @@ def run_seq(case):
             else:
                 cfg = (start_file(st["d0"], st["v0"], i), 0)
                 vel_rev0 = False
-            a = prop(long_lived, os.path.join(work, "long"), cfg, vel_rev0, bool(st["rev"]), st["maxlen"])
-            b = prop(_new_inproc_engine(name, case["sub"], L, case["k"]), os.path.join(work, f"fresh{i}"), cfg, vel_rev0,
-                     bool(st["rev"]), st["maxlen"])
+            a = prop(long_lived, os.path.join(work, "long"), cfg, vel_rev0, bool(st["rev"]), st["maxlen"], seed=100 + i, keep=True)
+            b = prop(_new_inproc_engine(name, case["sub"], L, case["k"], lang), os.path.join(work, f"fresh{i}"), cfg, vel_rev0,
+                     bool(st["rev"]), st["maxlen"], seed=100 + i)
             done.append(a)
             rec = {"long": {q: a[q] for q in ("order", "ekin", "vpot")}, "fresh": {q: b[q] for q in ("order", "ekin", "vpot")}}
-            if st.get("from") is not None and bool(st["rev"]) != vel_rev0:
+            if st.get("from") is not None and bool(st["rev"]) != vel_rev0 and not lang:
                 # time reversal from frame fi of path j: must retrace frames fi, fi-1, … of that path
                 j, fi = st["from"]
                 src = done[j]["order"][: fi + 1][::-1]
@@ -658,6 +731,8 @@ def run_seq(case):
                                          [abs(a["order"][q][1] - src[q][1]) for q in range(n)] + [0.0])
                 rec["retrace_n"] = n
             obs["steps"].append(rec)
+        # (b) frames returned earlier must not change when the engine object is used again
+        obs["earlier_path_changed"] = any(_snap_path(pth) != sn for pth, sn in snaps)
     except Exception:  # noqa: BLE001
         obs["harness_error"] = traceback.format_exc()[-1500:]
     finally:
@@ -686,6 +761,12 @@ def gen_seq_cases(ctx):
                         d0 = d_lo + (d_hi - d_lo) * rng.randrange(0, 9) / 8
                         steps.append(dict(d0=d0, v0=rng.choice(vs), rev=bool(rng.getrandbits(1)), maxlen=rng.randint(3, 8)))
                 cases.append(dict(engine=eng, sub=sub, L=64.0, k=k, steps=steps, tag="sequence"))
+        # stochastic dynamics (Langevin): the same random stream gives the same path on a long-lived and a fresh object
+        for sub in ((2,) if ctx.quick else (1, 2, 3)):
+            steps = [dict(d0=d_lo + (d_hi - d_lo) * rng.randrange(0, 9) / 8, v0=rng.choice(vs), rev=bool(rng.getrandbits(1)),
+                          maxlen=rng.randint(3, 6)) for _ in range(3)]
+            steps.append(dict(rev=not steps[1]["rev"], maxlen=3, **{"from": [1, 1]}))
+            cases.append(dict(engine=eng, sub=sub, L=64.0, k=k, steps=steps, langevin=True, tag="sequence-langevin"))
     return cases
 
 
@@ -695,6 +776,8 @@ def check_seq_property(ctx, case, obs):
     reversal from a middle frame retraces the source path"""
     eng = "ase" if case["engine"].startswith("ase") else "turtle"
     rep = {"case": case}
+    if obs.get("earlier_path_changed"):
+        ctx.fail(f"C12:{eng}:earlier-path-changed", "a path returned by an earlier propagate changed when the engine was used again", rep)
     for i, st in enumerate(obs.get("steps", [])):
         a, b = st["long"], st["fresh"]
         if a != b:
@@ -807,7 +890,10 @@ def run_plugin(case):
         system.config = (src, k)
         system.vel_rev = bool(case.get("vel_rev0", False))
         path = Path(maxlen=case["maxlen"])
-        ens = {"interfaces": (case["left"], (case["left"] + case["right"]) / 2, case["right"]), "ens_name": "001"}
+        import copy
+        ens = _mk_ens(case["left"], case["right"])
+        ens_before = copy.deepcopy(ens)
+        start_order = system.order
         try:
             ok, status = eng.propagate(path, ens, system, reverse=bool(case["rev"]))
             obs["success"] = bool(ok)
@@ -815,6 +901,7 @@ def run_plugin(case):
         except Exception as e:  # noqa: BLE001
             obs["raised"] = err_kind(e)
             obs["exc"] = f"{type(e).__name__}: {str(e)[:200]}"
+        _purity(obs, ens, ens_before, path, start_order)
         obs["calls"] = [list(c) for c in eng.calls]
         obs["sys_vel_rev"] = bool(system.vel_rev)
         obs["sys_cfg_idx"] = system.config[1]
@@ -851,10 +938,10 @@ def parse_g96(path):
     return (px[1] - px[0], L, vx[1])
 
 
-def trr_bytes(natoms, double, step, d, L, vx):
+def trr_bytes(natoms, double, step, d, L, vx, forces=False):
     import struct
     fs, fc = (8, "d") if double else (4, "f")
-    sizes = [0, 0, 9 * fs, 0, 0, 0, 0, 3 * natoms * fs, 3 * natoms * fs, 0]
+    sizes = [0, 0, 9 * fs, 0, 0, 0, 0, 3 * natoms * fs, 3 * natoms * fs, 3 * natoms * fs if forces else 0]
     h = struct.pack(">1i", 1993) + struct.pack(">2i", 13, 12) + struct.pack(">12s", b"GMX_trn_file")
     h += struct.pack(">13i", *sizes, natoms, step, 0) + struct.pack(">2" + fc, step * 0.5, 0.0)
     box = [L, 0, 0, 0, L, 0, 0, 0, L]
@@ -862,7 +949,18 @@ def trr_bytes(natoms, double, step, d, L, vx):
     v = [0.0] * (3 * natoms)
     x[3] = d
     v[3] = vx
-    return h + struct.pack(">9" + fc, *box) + struct.pack(f">{3 * natoms}{fc}", *x) + struct.pack(f">{3 * natoms}{fc}", *v)
+    out = h + struct.pack(">9" + fc, *box) + struct.pack(f">{3 * natoms}{fc}", *x) + struct.pack(f">{3 * natoms}{fc}", *v)
+    if forces:
+        out += struct.pack(f">{3 * natoms}{fc}", *([0.5] * (3 * natoms)))
+    return out
+
+
+def gmx_blobs(case):
+    """the TRR frames of a case; `hetero`: frames of different sizes (forces written for every other frame, like
+    nstfout = 2·nstxout)"""
+    sub, natoms, double = case.get("sub", 1), case.get("natoms", 2), bool(case.get("double", False))
+    return [trr_bytes(natoms, double, k * sub, d, L, vx, forces=bool(case.get("hetero")) and k % 2 == 0)
+            for k, (d, L, vx) in enumerate(case["frames"])]
 
 
 def parse_trr(path):
@@ -875,17 +973,17 @@ def parse_trr(path):
         magic, = struct.unpack_from(">i", data, o)
         assert magic == 1993
         sizes = struct.unpack_from(">13i", data, o + 24)
-        box_size, x_size, v_size, natoms = sizes[2], sizes[7], sizes[8], sizes[10]
+        box_size, x_size, v_size, f_size, natoms = sizes[2], sizes[7], sizes[8], sizes[9], sizes[10]
         fs = box_size // 9
         fc = "d" if fs == 8 else "f"
         o += 24 + 52 + 2 * fs
-        if o + box_size + x_size + v_size > len(data):
+        if o + box_size + x_size + v_size + f_size > len(data):
             break
         box = struct.unpack_from(">9" + fc, data, o)
         x = struct.unpack_from(f">{3 * natoms}{fc}", data, o + box_size)
         v = struct.unpack_from(f">{3 * natoms}{fc}", data, o + box_size + x_size)
         out.append((x[3] - x[0], box[0], v[3]))
-        o += box_size + x_size + v_size
+        o += box_size + x_size + v_size + f_size
     return out
 
 
@@ -910,9 +1008,14 @@ def _gmx_engine(sub, natoms):
     return eng
 
 
-def gmx_need0(natoms, double):
-    fsz = len(trr_bytes(natoms, double, 0, 1.0, 3.0, 0.0))
-    return -(-1000 // fsz)
+def gmx_need0(case):
+    """complete frames that must be visible before the reader tries its first header (TRR_HEAD_SIZE = 1000 bytes)"""
+    tot = 0
+    for n, b in enumerate(gmx_blobs(case), start=1):
+        tot += len(b)
+        if tot >= 1000:
+            return n
+    return len(case["frames"]) + 1
 
 
 def run_gmx(case):
@@ -931,8 +1034,12 @@ def run_gmx(case):
             pre = _run_gmx_in(case["prelude"], work)
             if "harness_error" in pre:
                 return pre
+            first_path = _LAST.get("path")
+            first_snap = _snap_path(first_path)
         obs = _run_gmx_in(case, work)
         if case.get("prelude"):
+            # (b) frames returned earlier must not change when the engine is used again (no aliasing of engine buffers)
+            obs["earlier_path_changed"] = _snap_path(first_path) != first_snap
             obs["prelude_obs"] = {k: pre.get(k) for k in ("raised", "success", "status", "path", "proc")}
         return obs
     finally:
@@ -951,7 +1058,7 @@ def _run_gmx_in(case, work):
     try:
         eng = _gmx_engine(sub, natoms)
         eng.mdrun = ctl.fake_cmd("fake_gmx.py") + (" launch" if case.get("launch") else "") + " mdrun -s {} -deffnm {} -c {}"
-        blobs = [trr_bytes(natoms, double, k * sub, d, L, vx) for k, (d, L, vx) in enumerate(frames)]
+        blobs = gmx_blobs(case)
         cuts = list(itertools.accumulate([0] + [len(b) for b in blobs]))
         files = {"trr": b"".join(blobs).hex(), "edr": ""}
         d0, L0, v0 = case.get("start", frames[0] if frames else (1.0, 16.0, 0.0))
@@ -971,7 +1078,10 @@ def _run_gmx_in(case, work):
         system.vel_rev = bool(case.get("vel_rev0", False))
         system.order = [d0, v0]
         path = Path(maxlen=case["maxlen"])
-        ens = {"interfaces": (case["left"], (case["left"] + case["right"]) / 2, case["right"]), "ens_name": "001"}
+        import copy
+        ens = _mk_ens(case["left"], case["right"])
+        ens_before = copy.deepcopy(ens)
+        start_order = system.order
         old_sleep = mod.sleep
         mod.sleep = c.sleep
         ctl.FakeCtl.active = c
@@ -992,6 +1102,8 @@ def _run_gmx_in(case, work):
             import gc
             gc.collect()
             sys.unraisablehook = hook
+        _purity(obs, ens, ens_before, path, start_order)
+        _LAST["path"] = path
         obs["proc"] = c.finish()
         obs["ticks"] = c.t
         obs["realised"] = [r if r is not None else [0, 0, 0, 1] for r in c.realised]
@@ -1076,7 +1188,7 @@ def code_view(obs):
     ents = []
     for e in obs.get("path", []):
         o = e["order"]
-        ents.append((e["idx"], sc(o[0]) if o[0] * S == int(o[0] * S) else o[0], sc(o[1]) if len(o) > 1 else 0))
+        ents.append((e["idx"], scs(o[0]), scs(o[1]) if len(o) > 1 else 0))
     v = {"raised": obs["raised"], "ents": ents}
     if obs["raised"] == "ok":
         v["success"] = obs["success"]
@@ -1095,6 +1207,15 @@ def model_view(m, with_ticks=True):
 # ----------------------------------------------------------------------------- property predicates (no model)
 def outside(x, left, right):
     return x < left or x > right
+
+
+def _check_purity(ctx, eng, obs, rep):
+    if obs.get("ens_changed"):
+        ctx.fail(f"C12:{eng}:input-modified", f"propagate changed the ensemble settings it was given: {obs['ens_changed'][:300]}", rep)
+    if obs.get("order_alias"):
+        ctx.fail(f"C12:{eng}:frames-alias", "two returned frames (or a frame and the start point) share one order list object", rep)
+    if obs.get("earlier_path_changed"):
+        ctx.fail(f"C12:{eng}:earlier-path-changed", "a path returned by an earlier propagate changed when the engine was used again", rep)
 
 
 def check_ext_property(ctx, case, obs):
@@ -1160,6 +1281,7 @@ def check_ext_property(ctx, case, obs):
         healthy = case["code"] == 0 and any(w[0] for w in obs.get("realised", []))
         if healthy:
             ctx.fail(f"C12:{eng}:raised-on-healthy-run", f"{obs.get('exc')}", rep)
+    _check_purity(ctx, eng, obs, rep)
     # (c) program stopped when propagate returns/raises
     if obs.get("proc") == "orphan":
         ctx.fail(f"C12:{eng}:program-left-running", "the external program was still running after propagate ended", rep)
@@ -1268,14 +1390,15 @@ def gen_ext_cases(ctx):
         n = rng.randint(1, 5)
         fr = []
         for k in range(n):
-            d = rng.choice((0.25, 0.5, 1.0, 2.0, 7.75, 8.0, 8.25, 9.0, 11.0))
+            d = rng.choice((0.0, 0.25, 0.5, 1.0, 2.0, 7.75, 8.0, 8.25, 9.0, 11.0))
             L = rng.choice((12.0, 16.0, 20.0, 32.0, 64.0))
             if abs(d / L - round(d / L)) == 0.5:
                 L = 64.0
             fr.append((d, L, float(rng.randint(-3, 3))))
         times = sorted(rng.randint(0, 3 * n + 6) for _ in range(n + 2))
         cases.append(dict(engine="lammps", frames=fr, sched=sched_from_times(times[0], times[1:-1], times[-1]),
-                          code=rng.choice((0, 0, 1, 7, -9, -11, -15)), maxlen=rng.randint(1, n + 1), left=0.5, right=8.0,
+                          code=rng.choice((0, 0, 1, 7, -9, -11, -15)), maxlen=rng.randint(1, n + 1),
+                          left=rng.choice((0.5, 0.5, 0.0)), right=8.0, shuffled=rng.choice((False, True)),
                           rev=rng.choice((0, 1)), vel_rev0=rng.choice((False, True)), sub=rng.choice((1, 2, 3)),
                           lo=rng.choice((0.0, 2.0)), tag="random"))
     # D. CP2K: position and velocity files advance independently
@@ -1295,12 +1418,12 @@ def gen_ext_cases(ctx):
                                       sub=rng.choice((1, 2, 3)), start=(1.0, 30.0, 1.0) if n == 0 else None, tag="cp2k-exh"))
     for _ in range(120 if quick else 2500):
         n = rng.randint(1, 4)
-        fr = [(rng.choice((0.25, 0.5, 1.0, 2.0, 7.75, 8.0, 8.25, 9.0)), 30.0, float(rng.randint(-3, 3))) for _ in range(n)]
+        fr = [(rng.choice((0.0, 0.25, 0.5, 1.0, 2.0, 7.75, 8.0, 8.25, 9.0)), 30.0, float(rng.randint(-3, 3))) for _ in range(n)]
         pt = sorted(rng.randint(0, 2 * n + 4) for _ in range(n + 1))
         vt = sorted(rng.randint(pt[0], 2 * n + 4) for _ in range(n))
         x = max(pt + vt) + rng.randint(0, 2)
         cases.append(dict(engine="cp2k", frames=fr, sched=sched_from_times(pt[0], pt[1:], x, vt), code=rng.choice((0, 0, 5, -9, -11, -15)),
-                          maxlen=rng.randint(1, n + 1), left=0.5, right=8.0, rev=rng.choice((0, 1)),
+                          maxlen=rng.randint(1, n + 1), left=rng.choice((0.5, 0.5, 0.0)), right=8.0, rev=rng.choice((0, 1)),
                           vel_rev0=rng.choice((False, True)), sub=rng.choice((1, 2, 3)), tag="cp2k-random"))
     # E. two consecutive propagations with ONE engine object in ONE exe_dir: nothing of the first may leak into the
     #    second (reader positions, leftover files, cached sizes): the second is checked like any other case
@@ -1359,16 +1482,17 @@ def gen_gmx_cases(ctx):
         n = rng.randint(1, 8)
         fr = []
         for j in range(n):
-            d = rng.choice((0.25, 0.5, 1.0, 2.0, 7.75, 8.0, 8.25, 9.0, 11.0)) if rng.random() < 0.5 else 1.0 + 0.25 * j
+            d = rng.choice((0.0, 0.25, 0.5, 1.0, 2.0, 7.75, 8.0, 8.25, 9.0, 11.0)) if rng.random() < 0.5 else 1.0 + 0.25 * j
             L = rng.choice((12.0, 16.0, 20.0, 32.0, 64.0))
             if abs(d / L - round(d / L)) == 0.5:
                 L = 64.0
             fr.append((d, L, float(rng.randint(-3, 3))))
         times = sorted(rng.randint(0, 3 * n + 6) for _ in range(n + 2))
         cases.append(dict(engine="gromacs", frames=fr, sched=sched_from_times(times[0], times[1:-1], times[-1]),
-                          code=rng.choice((0, 0, 0, 1, -9, -11, -15)), maxlen=rng.randint(1, n + 1), left=0.5, right=8.0,
+                          code=rng.choice((0, 0, 0, 1, -9, -11, -15)), maxlen=rng.randint(1, n + 1),
+                          left=rng.choice((0.5, 0.5, 0.0)), right=8.0,
                           rev=rng.choice((0, 1)), vel_rev0=rng.choice((False, True)), sub=rng.choice((1, 2, 3)),
-                          natoms=natoms, double=double, tag="gmx-random"))
+                          natoms=natoms, double=double, hetero=rng.choice((False, True)), tag="gmx-random"))
     # launcher-style worker command (`wmdrun = "srun … gmx mdrun"`): the engine's child is a launcher, mdrun its child in
     # the same process group — after propagate the WHOLE group must be gone
     for j in range(16 if ctx.quick else 120):
@@ -1382,6 +1506,16 @@ def gen_gmx_cases(ctx):
     cases.append(dict(engine="gromacs", frames=[(1.0, 16.0, 1.0), (9.0, 32.0, 2.0)], sched=[(1, 2, 0, 1)] * 12 + [(1, 2, 0, 0)], code=0,
                       maxlen=5, left=0.5, right=8.0, rev=0, vel_rev0=False, sub=1, natoms=40, double=False, launch=True,
                       tag="gmx-launcher"))
+    # frames of different sizes (forces only in every other frame): the last, smaller frame arrives exactly when mdrun
+    # ends with code 0, after the larger ones were read on the fly — every complete frame must still be returned
+    for n in (2, 4, 6):
+        for double in (False, True):
+            for lag in (0, 1, 3):
+                fr = [(1.0 + 0.25 * i, 32.0, float(i % 3 - 1)) for i in range(n)]
+                arr = [2 * i for i in range(n - 1)]
+                x = 2 * (n - 1) + 2 + lag
+                cases.append(dict(engine="gromacs", frames=fr, sched=sched_from_times(0, arr + [x], x), code=0, maxlen=n + 3, left=0.5,
+                                  right=8.0, rev=0, vel_rev0=False, sub=1, natoms=40, double=double, hetero=True, tag="gmx-hetero-tail"))
     # two consecutive propagations with one engine object in one exe_dir
     for j in range(10 if ctx.quick else 60):
         def one(n):
@@ -1411,7 +1545,7 @@ def gmx_line(case, realised, repaired=False):
     tab = [(ci, bi, sc(pbc(d, L))) for ci, d in enumerate(ds) for bi, L in enumerate(Ls)]
     ws = " ".join([str(len(realised))] + [f"{a} {b} {c} {d}" for a, b, c, d in realised])
     return (f"gmxext {'rep' if repaired else 'asis'} {sc(case['left'])} {sc(case['right'])} {case['maxlen']} {int(bool(case['rev']))} {case['code']} "
-            f"{gmx_need0(case.get('natoms', 2), bool(case.get('double', False)))} 400 {tri(fr)} {ws} {tri(tab)}")
+            f"{gmx_need0(case)} 400 {tri(fr)} {ws} {tri(tab)}")
 
 
 def gen_inproc_cases(ctx):
@@ -1465,8 +1599,9 @@ def gen_plugin_cases(ctx):
     for _ in range(200 if ctx.quick else 2000):
         sub = rng.choice((2, 3))
         n = rng.randint(0, 9)
-        cases.append(dict(engine="plugin", d0=2.0, v0=1.0, script=[rng.choice(LEVELS) for _ in range(n)], sub=sub,
-                          maxlen=rng.randint(1, 5), left=0.5, right=8.0, rev=rng.choice((0, 1)),
+        cases.append(dict(engine="plugin", d0=rng.choice((2.0, 0.0)), v0=rng.choice((1.0, 0.0)),
+                          script=[rng.choice(LEVELS + (0.0,)) for _ in range(n)], sub=sub,
+                          maxlen=rng.randint(1, 5), left=rng.choice((0.5, 0.0)), right=8.0, rev=rng.choice((0, 1)),
                           vel_rev0=rng.choice((False, True)), start_idx=rng.choice((0, 1)), tag="plugin-sub"))
     return cases
 
@@ -1519,6 +1654,7 @@ def check_path_rules(ctx, eng, case, obs, rep, tol=0.0):
             if abs(e["order"][1] - sign * r["vx"]) > tol:
                 ctx.fail(f"C12:{eng}:velocity-direction", f"frame {k}: order function saw vx={e['order'][1]}, file has {r['vx']}, vel_rev={rev}", rep)
                 break
+    _check_purity(ctx, eng, obs, rep)
     if any(outside(x, left, right) for x in ords[:-1]):
         ctx.fail(f"C12:{eng}:continued-past-crossing", f"orders {ords}, interfaces {left, right}", rep)
     if len(path) > maxlen:
@@ -1612,7 +1748,7 @@ def _run(ctx):
         ctx.hit(f"{eng}:raised={obs['raised']}")
         if obs.get("path"):
             ctx.distinct((eng, tuple(case["frames"]), tuple(map(tuple, obs["realised"])), case["maxlen"], case["rev"], case["code"]))
-        nf = check_ext_property(ctx, case, obs)
+        nf = guarded(ctx, eng, case, check_ext_property, ctx, case, obs)
         if have_model:
             cv = code_view(obs)
             ms = by_case[k]
@@ -1662,7 +1798,7 @@ def _run(ctx):
         if obs.get("path"):
             ctx.distinct(("gromacs", tuple(case["frames"]), tuple(map(tuple, obs["realised"])), case["maxlen"], case["rev"],
                           case["code"], case["natoms"], case["double"]))
-        check_ext_property(ctx, case, obs)
+        guarded(ctx, "gromacs", case, check_ext_property, ctx, case, obs)
         if have_model:
             cv = code_view(obs)
             agree = []
@@ -1704,12 +1840,12 @@ def _run(ctx):
         ctx.hit(f"{eng}:{case['tag']}")
         rep = {"case": case, "observed": obs}
         exact = case["tag"] != "harmonic"
-        check_inproc_property(ctx, case, obs)
+        guarded(ctx, eng, case, check_inproc_property, ctx, case, obs)
         if obs.get("path"):
             ctx.distinct((eng, case["sub"], case["v0"], case["rev"], case["vel_rev0"], case["maxlen"], case["tag"]))
         if k in ians:
             m = parse_model(ians[k])
-            ents = [(e["idx"], sc2(e["order"][0]), sc2(e["order"][1])) for e in obs["path"]]
+            ents = [(e["idx"], scs(e["order"][0], S2), scs(e["order"][1], S2)) for e in obs["path"]]
             cv = {"raised": obs["raised"], "ents": ents, "success": obs.get("success"), "status": obs.get("status")}
             mv = {"raised": m["raised"], "ents": [(i, o, v) for (i, _c, _b, v, o) in m["ents"]], "success": m["success"],
                   "status": m["status"]}
@@ -1730,7 +1866,7 @@ def _run(ctx):
             _infra(case, obs)
         ctx.count(len(obs["steps"]), engine=case["engine"])
         ctx.distinct((case["engine"], case["sub"], json.dumps(case["steps"], sort_keys=True)))
-        check_seq_property(ctx, case, obs)
+        guarded(ctx, case["engine"], case, check_seq_property, ctx, case, obs)
         if k % 7 == 0:
             ctx.sample({"engine": case["engine"], "sub": case["sub"], "steps": case["steps"],
                         "first_path": obs["steps"][0]["long"]["order"][:4]})
@@ -1743,8 +1879,8 @@ def _run(ctx):
             _infra(case, obs)
         ctx.count(1, engine="plugin")
         rep = {"case": case, "observed": obs}
-        check_path_rules(ctx, "plugin", case, obs, rep)
-        ords = [sc(e["order"][0]) for e in obs.get("path", [])]
+        guarded(ctx, "plugin", case, check_path_rules, ctx, "plugin", case, obs, rep)
+        ords = [scs(e["order"][0]) for e in obs.get("path", [])]
         if ords:
             ctx.distinct(("plugin", case["d0"], tuple(case["script"]), case["sub"], case["maxlen"]))
         # EngineBase.propagate: start frame extracted from (file, idx), reversed iff reverse != vel_rev, vel_rev set
